@@ -297,7 +297,7 @@ let clause_name = function
   | 7 -> "full-vs-sparse-view" | 8 -> "hash-mismatch" | 9 -> "node-count-mismatch"
   | 10 -> "incoming-count-not-exact" | 11 -> "unreferenced-node-not-reclaimed"
   | 12 -> "cache-count-mismatch" | 13 -> "edge-values-not-normalised"
-  | 14 -> "full-view-size" | 15 -> "singleton-flag" | 16 -> "level-size" | 17 -> "node-at-level-0" | 18 -> "quasi-root-below-top" | 19 -> "root-not-live" | n -> "clause" ^ string_of_int n
+  | 14 -> "full-view-size" | 15 -> "singleton-flag" | 16 -> "level-size" | 17 -> "node-at-level-0" | 18 -> "quasi-root-below-top" | 19 -> "root-not-live" | 20 -> "ev-terminal-child" | n -> "clause" ^ string_of_int n
 
 let ev_int s = try int_of_string s with _ -> 0
 
